@@ -173,8 +173,12 @@ def build_records(quick: bool, seed: int, repo: str) -> list[dict[str, Any]]:
                 body = merge_patch(base, json.loads(json.dumps(dict(p0))))
             p = patches.Patch(); dst.store(body=bodies.Body(copy.deepcopy(body)), patch=p, essence=copy.deepcopy(ess))
             after = merge_patch(body, json.loads(json.dumps(dict(p))))
+            # the names written by this long-lived storage (it has served other objects before) vs by a storage fresh from its constructor
+            pf = patches.Patch(); storages()[sname][1].store(body=bodies.Body(copy.deepcopy(body)), patch=pf, essence=copy.deepcopy(ess))
+            names = lambda q: sorted(((dict(q).get('metadata') or {}).get('annotations') or {}).keys())
             foreign = lambda b: {k: v for k, v in b.get('metadata', {}).get('annotations', {}).items() if not (prefix and k.startswith(prefix + '/'))}
             recs.append({'kind': 'lasthandled', 'storage': sname + ('+drs' if drs else ''), 'essence': enc(ess), 'had': prev is not None,
+                         'names': names(p), 'names_fresh': names(pf),
                          'fetched': enc(dst.fetch(body=bodies.Body(copy.deepcopy(after)))),
                          'others_before': enc({'ann': foreign(body), 'status_user': body.get('status', {}).get('user')}),
                          'others_after': enc({'ann': foreign(after), 'status_user': after.get('status', {}).get('user')})})
